@@ -466,19 +466,45 @@ package framework
 // placement (Status, NodeName) of every pre-existing task other than x is untouched
 //@ define othersPlacedKept(x *pod_info.PodInfo) bool = forall t *pod_info.PodInfo :: old(allocated(t)) && t != x ==> t.Status == old(t.Status) && t.NodeName == old(t.NodeName)
 
+// ---- what the node books for a task (helper "stmt2") ---------------------------------------------
+// C14 "what the scheduler believes about each node (... per-GPU shared memory, pods present) ... equals the value
+// recomputed from scratch from the pods and their statuses" / C13 "leaves the scheduler's view of nodes ... GPU-sharing
+// groups ... exactly as it was": the node keeps a COPY of every pod it books (node.PodInfos[key]); all node accounting
+// (Idle / Used / Releasing, per-group shared-GPU memory) is charged from the copy's Status and GPUGroups at the time
+// of node.AddTask / UpdateTask. So the node agrees with the task iff that copy carries the task's current Status and
+// GPU groups. C14 observes the state "inside an event handler registered through Session.AddEventHandler": the
+// agreement is therefore an invariant of every handler loop (a loop moved in front of the node / job update fails it
+// on entry), besides being a postcondition.
+//@ define onNode(n *node_info.NodeInfo, t *pod_info.PodInfo) bool = pod_info.podKeyOf(t.Pod) in n.PodInfos
+//@ define nodeRec(n *node_info.NodeInfo, t *pod_info.PodInfo) *pod_info.PodInfo = n.PodInfos[pod_info.podKeyOf(t.Pod)]
+//@ define nodeAgrees(n *node_info.NodeInfo, t *pod_info.PodInfo) bool = onNode(n, t) ==> nodeRec(n, t).Status == t.Status && node_info.sameGroups(nodeRec(n, t), t)
+//@ define recGroupsAre(n *node_info.NodeInfo, t *pod_info.PodInfo, g []string) bool = nodeRec(n, t).GPUGroups == g
+
 // ---- un-ops ---------------------------------------------------------------------------------------
 // C13: "the matching un-op restores Status, NodeName, GPUGroups, IsVirtualStatus, ResourceClaimInfo
 // ... and fires the opposite handler".
 //@ func (*Statement).unevict
-//@   props C13
+//@   props C13 C02 C08 C14
 //@   requires stmtOK(s) && reclaimee != nil
 //@   assume jobReady(s.ssn.ClusterInfo.PodGroupInfos[reclaimee.Job], reclaimee) && nodeReady(node, reclaimee) && jobNodeSep(s.ssn.ClusterInfo.PodGroupInfos[reclaimee.Job], node)
 //@   modifies *
 //@   loop 1
 //@     invariant 0 - 1 <= rangeindex && rangeindex < len(s.ssn.eventHandlers)
 //@     invariant allocEvents() - old(allocEvents()) <= rangeindex + 1
+//@     # C14 (observed inside an event handler) / C08 "allocate/deallocate event handlers keep Allocated ... current during
+//@     # simulations": when the allocate handlers fire, job and node have been updated - the node books the task with its
+//@     # restored status and GPU groups (and with the AcceptedResource computed by THAT node)
+//@     invariant node != nil ==> nodeAgrees(node, reclaimee)
+//@     invariant node != nil && !old(onNode(node, reclaimee)) ==> onNode(node, reclaimee)
+//@     invariant reclaimee.GPUGroups == previousGpuGroups
 //@     decreases len(s.ssn.eventHandlers) - rangeindex
 //@   ensures [ok] result == nil
+//@   # C13 "leaves the scheduler's view of nodes, ... GPU-sharing groups ... exactly as it was" / C02: the node update is
+//@   # handed the RESTORED task - the node's record of the pod (from which the per-group shared-GPU memory is charged)
+//@   # sits on previousGpuGroups and carries the task's restored status
+//@   ensures [nodeBooksPreviousGroups] node != nil && onNode(node, reclaimee) ==> recGroupsAre(node, reclaimee, previousGpuGroups)
+//@   ensures [nodeBooksRestoredStatus] node != nil && onNode(node, reclaimee) ==> nodeRec(node, reclaimee).Status == reclaimee.Status
+//@   ensures [backOnNode] node != nil && !old(onNode(node, reclaimee)) ==> onNode(node, reclaimee)
 //@   ensures [restoresGpuGroups] reclaimee.GPUGroups == previousGpuGroups
 //@   ensures [restoresVirtual] reclaimee.IsVirtualStatus == previousIsVirtualStatus
 //@   ensures [restoresClaims] reclaimee.ResourceClaimInfo == previousResourceClaimInfo
@@ -499,7 +525,13 @@ package framework
 //@   loop 1
 //@     invariant 0 - 1 <= rangeindex && rangeindex < len(s.ssn.eventHandlers)
 //@     invariant deallocEvents() - old(deallocEvents()) <= rangeindex + 1
+//@     # C14 (observed inside an event handler) / C08: when the de-allocation handlers fire, the node the task was nominated
+//@     # to no longer books it and the task carries its restored placement
+//@     invariant !onNode(old(s.ssn.ClusterInfo.Nodes[task.NodeName]), task)
+//@     invariant task.NodeName == previousNode && task.GPUGroups == previousGpuGroups
 //@     decreases len(s.ssn.eventHandlers) - rangeindex
+//@   # C13 "leaves the scheduler's view of nodes ... exactly as it was": the nominated-to node forgets the task
+//@   ensures [offTheNode] result == nil ==> !onNode(old(s.ssn.ClusterInfo.Nodes[task.NodeName]), task)
 //@   ensures [restoresNode] task.NodeName == previousNode
 //@   ensures [restoresGpuGroups] task.GPUGroups == previousGpuGroups
 //@   ensures [restoresVirtual] task.IsVirtualStatus == previousIsVirtualStatus
@@ -521,7 +553,12 @@ package framework
 //@   loop 1
 //@     invariant 0 - 1 <= rangeindex && rangeindex < len(s.ssn.eventHandlers)
 //@     invariant deallocEvents() - old(deallocEvents()) <= rangeindex + 1
+//@     # C14 (observed inside an event handler) / C08: when the de-allocation handlers fire, the node no longer books the task
+//@     invariant !onNode(old(s.ssn.ClusterInfo.Nodes[task.NodeName]), task)
+//@     invariant task.NodeName == ""
 //@     decreases len(s.ssn.eventHandlers) - rangeindex
+//@   # C13 "leaves the scheduler's view of nodes ... exactly as it was" / C01: the node forgets the un-allocated task
+//@   ensures [offTheNode] result == nil ==> !onNode(old(s.ssn.ClusterInfo.Nodes[task.NodeName]), task)
 //@   ensures [failsIffNodeUnknown] (result != nil) == !old(task.NodeName in s.ssn.ClusterInfo.Nodes)
 //@   ensures [clearsNode] result == nil ==> task.NodeName == "" && task.IsVirtualStatus == previousIsVirtualStatus
 //@   ensures [backToPending] task.Status == pod_status.Pending || task.Status == old(task.Status)
@@ -543,8 +580,7 @@ package framework
 
 //@ func (*Statement).Evict
 //@   props C13 C06
-//@   nopanic off
-//@   note nopanic off: with the C14 contracts of UpdateTaskStatus/AddTask/UpdateTask in the context the nil-dereference obligations of the handler loop time out (no countermodel); the functional postconditions below are machine-checked
+//@   # (helper "stmt2") `nopanic off` removed: with handlersOK(s.ssn) carried as a loop invariant all no-panic obligations discharge
 //@   requires stmtOK(s) && reclaimeeTask != nil
 //@   assume jobReady(s.ssn.ClusterInfo.PodGroupInfos[reclaimeeTask.Job], reclaimeeTask) && nodeReady(s.ssn.ClusterInfo.Nodes[reclaimeeTask.NodeName], reclaimeeTask) && jobNodeSep(s.ssn.ClusterInfo.PodGroupInfos[reclaimeeTask.Job], s.ssn.ClusterInfo.Nodes[reclaimeeTask.NodeName])
 //@   modifies *
@@ -556,7 +592,13 @@ package framework
 //@     invariant previousResourceClaimInfo != nil ==> previousResourceClaimInfo != reclaimeeTask.ResourceClaimInfo
 //@     invariant bindrequest_info.rciSameKeys(previousResourceClaimInfo, reclaimeeTask.ResourceClaimInfo)
 //@     invariant bindrequest_info.rciFreshEntries(previousResourceClaimInfo, reclaimeeTask.ResourceClaimInfo)
+//@     # C14 (observed inside an event handler) / C08: when the de-allocation handlers fire, the job shows the task as
+//@     # Releasing and the node has re-booked it under that status (job first, then node, then handlers)
+//@     invariant reclaimeeTask.Status == pod_status.Releasing && onNode(node, reclaimeeTask) && nodeAgrees(node, reclaimeeTask)
+//@     invariant handlersOK(s.ssn)
 //@     decreases len(s.ssn.eventHandlers) - rangeindex
+//@   # C14: after a virtual eviction the node books the pod as Releasing, on the GPU groups the task shows
+//@   ensures [nodeAgreesWithJob] result == nil ==> onNode(old(s.ssn.ClusterInfo.Nodes[reclaimeeTask.NodeName]), reclaimeeTask) && nodeRec(old(s.ssn.ClusterInfo.Nodes[reclaimeeTask.NodeName]), reclaimeeTask).Status == pod_status.Releasing && nodeRec(old(s.ssn.ClusterInfo.Nodes[reclaimeeTask.NodeName]), reclaimeeTask).GPUGroups == reclaimeeTask.GPUGroups
 //@   ensures [errorKeepsLog] result != nil ==> s.operations == old(s.operations)
 //@   ensures [failsOnUnknownJobOrNode] !old(reclaimeeTask.Job in s.ssn.ClusterInfo.PodGroupInfos) || !old(reclaimeeTask.NodeName in s.ssn.ClusterInfo.Nodes) ==> result != nil && reclaimeeTask.Status == old(reclaimeeTask.Status)
 //@   ensures [appendsOneEvict] result == nil ==> appendedOne(s) && isEvictOp(lastOp(s))
@@ -588,15 +630,20 @@ package framework
 
 //@ func (*Statement).Allocate
 //@   props C13 C01
-//@   nopanic off
-//@   note nopanic off: with the C14 contracts of UpdateTaskStatus/AddTask/UpdateTask in the context the nil-dereference obligations of the handler loop time out (no countermodel); the functional postconditions below are machine-checked
+//@   # (helper "stmt2") `nopanic off` removed: with handlersOK(s.ssn) carried as a loop invariant all no-panic obligations discharge
 //@   requires stmtOK(s) && task != nil
 //@   assume jobReady(s.ssn.ClusterInfo.PodGroupInfos[task.Job], task) && nodeReady(s.ssn.ClusterInfo.Nodes[hostname], task) && jobNodeSep(s.ssn.ClusterInfo.PodGroupInfos[task.Job], s.ssn.ClusterInfo.Nodes[hostname])
 //@   modifies *
 //@   loop 1
 //@     invariant 0 - 1 <= rangeindex && rangeindex < len(s.ssn.eventHandlers)
 //@     invariant allocEvents() - old(allocEvents()) <= rangeindex + 1
+//@     # C14 (observed inside an event handler) / C08: when the allocation handlers fire, the job shows the task as Allocated
+//@     # on `hostname` and that node books it under this status (job first, then node, then handlers)
+//@     invariant task.Status == pod_status.Allocated && task.NodeName == hostname && onNode(s.ssn.ClusterInfo.Nodes[hostname], task) && nodeAgrees(s.ssn.ClusterInfo.Nodes[hostname], task)
+//@     invariant handlersOK(s.ssn)
 //@     decreases len(s.ssn.eventHandlers) - rangeindex
+//@   # C14 / C01: after a virtual allocation the node books the pod as Allocated, on the GPU groups the task shows
+//@   ensures [nodeBooksAllocated] result == nil ==> onNode(s.ssn.ClusterInfo.Nodes[hostname], task) && nodeRec(s.ssn.ClusterInfo.Nodes[hostname], task).Status == pod_status.Allocated && nodeRec(s.ssn.ClusterInfo.Nodes[hostname], task).GPUGroups == task.GPUGroups
 //@   ensures [errorKeepsLog] result != nil ==> s.operations == old(s.operations)
 //@   ensures [failsOnUnknownJobOrNode] !old(task.Job in s.ssn.ClusterInfo.PodGroupInfos) || !old(hostname in s.ssn.ClusterInfo.Nodes) ==> result != nil
 //@   ensures [appendsOneAllocate] result == nil ==> appendedOne(s) && isAllocateOp(lastOp(s))
@@ -616,6 +663,15 @@ package framework
 //@ end
 
 // Unevict(task) = undo the earliest still valid evict entry of that task.
+// (helper "stmt2") entry j is an entry of kind `name` about task t, as the look-up sees it (Operation.TaskInfo of an undo
+// entry is an empty placeholder, UID "")
+//@ define opMatches(s *Statement, j int, t *pod_info.PodInfo, name string) bool = ite(isUndoOp(s.operations[j]), t.UID == "" && name == "undo", opTask(s.operations[j]).UID == t.UID && opName(s.operations[j]) == name)
+// C13 "each pod is bound, nominated or evicted at most once and nothing is emitted for undone steps" (+ quantifier:
+// "un-evictions, evict-then-pipeline of the same pod"): the look-up lands on the EARLIEST entry of that kind and task
+// that is still valid - entries already undone (their first undo entry is live) are skipped, so a second un-evict of
+// the same pod reverses the second eviction instead of doing nothing on the first. (noUndoFor / undone are the depth-1 /
+// depth-2 cases of operationValid; on a flat log - every quiescent point - each entry is one or the other.)
+//@ define earliestValid(s *Statement, i int, t *pod_info.PodInfo, name string) bool = 0 <= i && i < len(s.operations) && opMatches(s, i, t, name) && noUndoFor(s, i) && (forall k int :: 0 <= k && k < i && opMatches(s, k, t, name) ==> undone(s, k))
 //@ func (*Statement).undoEarliestValidOperation
 //@   props C13
 //@   requires s != nil && wfLog(s) && taskToUndo != nil
@@ -623,7 +679,13 @@ package framework
 //@   usestable Statement.ssn Session.ClusterInfo Session.Cache
 //@   loop 1
 //@     invariant 0 - 1 <= rangeindex && rangeindex < len(s.operations)
+//@     invariant forall k int :: 0 <= k && k <= rangeindex ==> !(opMatches(s, k, taskToUndo, opName) && noUndoFor(s, k))
 //@     decreases len(s.operations) - rangeindex
+//@   # `lemma` (proved at exit, not exported): the only caller under contract, Pipeline (through Unevict), does not use them,
+//@   # and as `ensures` the nested quantifiers triple the solving time of Pipeline's log obligations
+//@   lemma [undoesEarliestValid] forall i int :: old(earliestValid(s, i, taskToUndo, opName)) && result == nil ==> len(s.operations) > old(len(s.operations)) && targets(s, len(s.operations) - 1, i)
+//@   lemma [reversesEarliestValid] forall i int :: old(earliestValid(s, i, taskToUndo, opName)) ==> reversals() >= old(reversals()) + 1
+//@   lemma [failsIfNoValidMatch] old(forall i int :: 0 <= i && i < len(s.operations) && opMatches(s, i, taskToUndo, opName) ==> undone(s, i)) ==> result != nil && s.operations == old(s.operations) && reversals() == old(reversals())
 //@   ensures [lenGrows] len(s.operations) >= old(len(s.operations))
 //@   ensures [prefixKept] forall j int :: 0 <= j && j < old(len(s.operations)) ==> s.operations[j] == old(s.operations[j])
 //@   ensures [newEntriesOK] forall j int :: old(len(s.operations)) <= j && j < len(s.operations) ==> okEntry(s.operations[j], j)
@@ -650,8 +712,7 @@ package framework
 // instead: Unevict); otherwise one pipeline entry is appended.
 //@ func (*Statement).Pipeline
 //@   props C13 C01
-//@   nopanic off
-//@   note nopanic off: with the C14 contracts of the node/job mutators in the context the nil-dereference obligations time out (no countermodel); the functional postconditions below are machine-checked
+//@   # (helper "stmt2") `nopanic off` removed: with handlersOK(s.ssn) carried as a loop invariant all no-panic obligations discharge
 //@   requires stmtOK(s) && wfLog(s) && task != nil
 //@   assume hostname in s.ssn.ClusterInfo.Nodes ==> (forall k in s.ssn.ClusterInfo.Nodes[hostname].PodInfos :: s.ssn.ClusterInfo.Nodes[hostname].PodInfos[k] != nil)
 //@   note the assume on PodInfos values (no nil task recorded on a node) is a node_info invariant like nodeReady; it was a `requires` before, but no caller can carry it across the `modifies *` statement operations
@@ -661,7 +722,16 @@ package framework
 //@     invariant 0 - 1 <= rangeindex && rangeindex < len(s.ssn.eventHandlers)
 //@     invariant allocEvents() - old(allocEvents()) <= rangeindex + 1
 //@     invariant s.operations == old(s.operations)
+//@     # C14 (observed inside an event handler) / C08: when the allocation handlers fire, the task points at `hostname` and
+//@     # that node books it under the status and GPU groups the task shows (job first, then node, then handlers)
+//@     invariant task.NodeName == hostname && nodeAgrees(s.ssn.ClusterInfo.Nodes[hostname], task)
+//@     invariant handlersOK(s.ssn)
 //@     decreases len(s.ssn.eventHandlers) - rangeindex
+//@   # proof step: the three shapes the log can have at exit (untouched / one pipeline entry appended / un-evict branch: only
+//@   # well-formed undo entries appended); the log postconditions below follow from it
+//@   hint [logShape] s.operations == old(s.operations) || (appendedOne(s) && isPipelineOp(lastOp(s)) && okEntry(lastOp(s), len(s.operations) - 1)) || (len(s.operations) >= old(len(s.operations)) && (forall j int :: 0 <= j && j < old(len(s.operations)) ==> s.operations[j] == old(s.operations[j])) && (forall j int :: old(len(s.operations)) <= j && j < len(s.operations) ==> isUndoOp(s.operations[j]) && okEntry(s.operations[j], j)))
+//@   # C14 / C02: after a nomination the node's record of the pod carries the task's status and GPU groups
+//@   ensures [nodeAgreesWithTask] updateTaskIfExistsOnNode && result == nil ==> nodeAgrees(s.ssn.ClusterInfo.Nodes[hostname], task)
 //@   ensures [failsOnUnknownJobOrNode] !old(task.Job in s.ssn.ClusterInfo.PodGroupInfos) || !old(hostname in s.ssn.ClusterInfo.Nodes) ==> result != nil && s.operations == old(s.operations) && task.Status == old(task.Status) && task.NodeName == old(task.NodeName)
 //@   ensures [lenGrows] len(s.operations) >= old(len(s.operations))
 //@   ensures [prefixKept] forall j int :: 0 <= j && j < old(len(s.operations)) ==> s.operations[j] == old(s.operations[j])
@@ -788,6 +858,36 @@ package framework
 //@   ensures [commitEnvKept] commitEnvKept(ssn)
 //@   nopanic off
 //@   note nopanic off: `&pod.Pod.CreationTimestamp.Time` (address of a field inside the opaque metav1.Time scalar, argument of a metrics no-op) is over-approximated by the engine as a fresh pointer
+//@   ensures [othersPlacedKept] othersPlacedKept(pod)
+//@ end
+
+// (helper "stmt2") C14 "at every step of a cycle, what the scheduler believes about each node ... and each workload ...
+// equals the value recomputed from scratch from the pods and their statuses": a real (non-simulated) eviction moves the
+// pod to Releasing in its workload FIRST and then tells the node, so that the node re-books the pod under the status the
+// workload shows (job first, then node; with the two steps swapped the node keeps the pod as Running while the job says
+// Releasing). The de-allocation handlers fire after both (C14 observes the state inside an event handler).
+//@ define evNode(ssn *Session, pod *pod_info.PodInfo) *node_info.NodeInfo = ssn.ClusterInfo.Nodes[pod.NodeName]
+//@ func (*Session).Evict
+//@   props C14 C13 C06
+//@   requires sessOK(ssn) && ssn.Cache != nil && pod != nil
+//@   assume jobReady(ssn.ClusterInfo.PodGroupInfos[pod.Job], pod) && nodeReady(evNode(ssn, pod), pod) && jobNodeSep(ssn.ClusterInfo.PodGroupInfos[pod.Job], evNode(ssn, pod))
+//@   modifies *
+//@   loop 1
+//@     invariant 0 - 1 <= rangeindex && rangeindex < len(ssn.eventHandlers)
+//@     invariant deallocEvents() - old(deallocEvents()) <= rangeindex + 1
+//@     invariant pod.Status == pod_status.Releasing && evNode(ssn, pod) != nil && onNode(evNode(ssn, pod), pod)
+//@     invariant nodeAgrees(evNode(ssn, pod), pod)
+//@     decreases len(ssn.eventHandlers) - rangeindex
+//@   ensures [evictIffGroupKnown] cache.evictCalls() == old(cache.evictCalls()) + ite(old(pod.Job in ssn.ClusterInfo.PodGroupInfos), 1, 0) && cache.bindCalls() == old(cache.bindCalls()) && cache.pipelinedCalls() == old(cache.pipelinedCalls())
+//@   ensures [failsOnUnknownGroup] !old(pod.Job in ssn.ClusterInfo.PodGroupInfos) ==> result != nil && pod.Status == old(pod.Status)
+//@   ensures [nowReleasing] result == nil ==> pod.Status == pod_status.Releasing
+//@   ensures [releasingOrKept] pod.Status == pod_status.Releasing || pod.Status == old(pod.Status)
+//@   ensures [nodeAgreesWithJob] result == nil ==> evNode(ssn, pod) != nil && onNode(evNode(ssn, pod), pod) && nodeRec(evNode(ssn, pod), pod).Status == pod.Status && nodeRec(evNode(ssn, pod), pod).GPUGroups == pod.GPUGroups
+//@   ensures [placementKept] pod.NodeName == old(pod.NodeName) && pod.GPUGroups == old(pod.GPUGroups) && pod.IsVirtualStatus == old(pod.IsVirtualStatus)
+//@   ensures [handlerPolarity] allocEvents() == old(allocEvents()) && deallocEvents() - old(deallocEvents()) <= old(len(ssn.eventHandlers))
+//@   ensures [noHandlerOnFailure] result != nil ==> deallocEvents() == old(deallocEvents())
+//@   ensures [logsSame] logsSame()
+//@   ensures [reversesNothing] reversals() == old(reversals()) && reverseFailures() == old(reverseFailures())
 //@   ensures [othersPlacedKept] othersPlacedKept(pod)
 //@ end
 
@@ -1350,7 +1450,8 @@ package framework
 // candNode: LOCAL ABBREVIATION of the unit (*Session).SubsetNodesFn for "non-nil node of the candidate set" (fixed by an
 // `assume` at the unit's entry and used nowhere else; it keeps the existential out of the loop invariants)
 //@ declare candNode(n *node_info.NodeInfo) bool
-//@ define subsetsOK(S []node_info.NodeSet) bool = forall a int :: 0 <= a && a < len(S) ==> (forall i int :: 0 <= i && i < len(S[a]) ==> candNode(S[a][i]))
+//@ define allCand(s node_info.NodeSet) bool = forall j int :: 0 <= j && j < len(s) ==> candNode(s[j])
+//@ define subsetsOK(S []node_info.NodeSet) bool = forall q *node_info.NodeSet :: incells(q, S) ==> allCand(*q)
 //@ func (*Session).SubsetNodesFn
 //@   props C01 C03 C04
 //@   usestable []Operation Session.SubsetNodesFns []api.SubsetNodesFn []*node_info.NodeInfo []node_info.NodeSet Session.ClusterInfo Session.Cache Session.eventHandlers []*EventHandler ClusterInfo.PodGroupInfos ClusterInfo.Nodes map[common_info.PodGroupID]*podgroup_info.PodGroupInfo map[string]*node_info.NodeInfo
@@ -1363,8 +1464,9 @@ package framework
 //@   note assumed: no nil function is registered
 //@   assume forall j int :: 0 <= j && j < len(initNodeSet) ==> initNodeSet[j] != nil
 //@   note assumed: the candidate set holds no nil node (the trusted contract this block replaces promised non-nil result nodes even with no subset function registered, i.e. it assumed the same)
-//@   assume forall n *node_info.NodeInfo :: candNode(n) == (n != nil && inInit(initNodeSet, n))
-//@   note the assume on candNode defines a local abbreviation (a declared symbol constrained nowhere else), it is no assumption about the program
+//@   assume allCand(initNodeSet)
+//@   assume forall n *node_info.NodeInfo :: candNode(n) ==> n != nil && inInit(initNodeSet, n)
+//@   note the two assumes on candNode fix a local abbreviation (a declared symbol constrained nowhere else: candNode := "non-nil node of the candidate set"; both hold for that reading given the non-nil assume above); they are no assumption about the program
 //@   modifies *
 //@   loop 1
 //@     modifies *
